@@ -18,7 +18,8 @@ VIEWS = ["v1", "v2"]
 PATHS = ["/q1", "/d/e/q2"]
 KEYS = ["kA", "kB"]
 
-SPELLINGS = ["absolute", "relative", "trailing-slash", "nested-new", "symlinked-parent", "relative-dot"]
+SPELLINGS = ["absolute", "relative", "trailing-slash", "nested-new", "symlinked-parent", "relative-dot",
+             "symlinked-data-parent", "symlinked-internal-parent"]
 CACHE = [None, False, True, 0, -1, 2]
 
 MODSRC = '''import dds
@@ -64,6 +65,11 @@ def dirs_for(spelling: str, base: str, view: str) -> Tuple[str, str, str]:
         return (os.path.join(base, "st", "a", "b", "internal"), os.path.join(base, "st", "c", "d", "data_" + view), home)
     if spelling == "symlinked-parent":
         return (os.path.join(base, "lnk", "internal"), os.path.join(base, "lnk", "data_" + view), home)
+    if spelling == "symlinked-data-parent":
+        # base/work -> base/volumes/scratch/user : the physical place of the data dir is deeper than its name says
+        return (os.path.join(base, "st", "internal"), os.path.join(base, "work", "data_" + view), home)
+    if spelling == "symlinked-internal-parent":
+        return (os.path.join(base, "iwork", "internal"), os.path.join(base, "st", "data_" + view), home)
     raise ValueError(spelling)
 
 
@@ -129,6 +135,12 @@ def _replay(a) -> Dict[str, Any]:
     if spelling == "symlinked-parent":
         os.makedirs(os.path.join(base, "real_target"))
         os.symlink(os.path.join(base, "real_target"), os.path.join(base, "lnk"))
+    if spelling == "symlinked-data-parent":
+        os.makedirs(os.path.join(base, "volumes", "scratch", "user"))
+        os.symlink(os.path.join(base, "volumes", "scratch", "user"), os.path.join(base, "work"))
+    if spelling == "symlinked-internal-parent":
+        os.makedirs(os.path.join(base, "mnt", "deep", "er", "vol"))
+        os.symlink(os.path.join(base, "mnt", "deep", "er", "vol"), os.path.join(base, "iwork"))
     # cut at 'newproc'
     segs: List[List[Dict[str, Any]]] = [[]]
     for op in hist:
